@@ -10,7 +10,7 @@ import LitexModel.Generated.ClockRanges
     call ice40 <clkin> <f> <phase> <margin>      -> "none" | "some <divr> <divf> <divq> <vco> <filter|-1>"
     call nx <clkin> <k> {<f> <phase> <margin>}*k -> "none" | "some <clki> <clkfb_div> <vco> <REF_MMD_DIG> <DIVF> <k> {<div> <DIVx> <DELx>}*k"
     call nxosc <f> <margin>                      -> "none" | "some <div>"
-    call intel <dev> <clkin> <vcoMargin> <k> {...}*k -> "none" | "some <n> <m> <k> {<c*n>}*k"
+    call intel <dev> <clkin> <vcoMargin> <k> {...}*k -> "none" | "some <n> <m> <k> {<c*n> <phase_ps>}*k"
     call gw1n <dev> <clkin> <vcoMargin> <k> {...}*k  -> "ok <idiv> <fdiv> <odiv> <sdiv> <psda> <k> {pin}*k" | rejected | assertion | crash
     call gwosc <osc> <f> <margin>                -> "none" | "some <div>"
     call clkdiv <a> <b> <s> <k>                  -> "<n> {<value>}*n"
@@ -155,10 +155,11 @@ def cIntel : P String := do
   let vm ← pQ
   let outs ← pOuts
   pEnd
-  match aSearch d ⟨clkin, vm, outs⟩ with
+  let r : AReq := ⟨clkin, vm, outs⟩
+  match aSearch d r with
   | none => pure "none"
   | some c =>
-    let ps := (aParams c).map fun (dv, _) => sQ dv
+    let ps := (aParams r c).map fun (dv, _, ph) => s!"{sQ dv} {ph}"
     pure s!"some {c.n} {c.m} {c.cs.length} {join ps}"
 
 def cGw1n : P String := do
@@ -169,7 +170,9 @@ def cGw1n : P String := do
   let outs ← pOuts
   pEnd
   match gSearch d ⟨clkin, vm, outs⟩ with
-  | .ok c => pure s!"ok {c.idiv} {c.fdiv} {c.odiv} {c.sdiv} {c.psda} {c.pins.length} {join (c.pins.map toString)}"
+  | .ok c =>
+    let (a, b, e, f) := gParams c
+    pure s!"ok {c.idiv} {c.fdiv} {c.odiv} {c.sdiv} {c.psda} {c.pins.length} {join (c.pins.map toString)} | {a} {b} {e} {f}"
   | .rejected => pure "rejected"
   | .assertion => pure "assertion"
   | .crash => pure "crash"
